@@ -65,18 +65,13 @@ func numTok(v interface{}) (string, bool) {
 // that they can never compare equal to a model value.
 func enc(v interface{}) string {
 	var sb strings.Builder
-	encDepth = 0
-	encTo(&sb, v)
+	encTo(&sb, v, 0)
 	return sb.String()
 }
 
-// encDepth guards against cyclic values (an aliasing defect can make a Map contain itself).
-var encDepth int
-
-func encTo(sb *strings.Builder, v interface{}) {
-	encDepth++
-	defer func() { encDepth-- }()
-	if encDepth > 300 {
+// encTo: depth guards against cyclic values (an aliasing defect can make a Map contain itself).
+func encTo(sb *strings.Builder, v interface{}, depth int) {
+	if depth > 300 {
 		sb.WriteString("?cyclic-or-too-deep")
 		return
 	}
@@ -94,26 +89,26 @@ func encTo(sb *strings.Builder, v interface{}) {
 	case []interface{}:
 		sb.WriteString("[ ")
 		for _, e := range x {
-			encTo(sb, e)
+			encTo(sb, e, depth+1)
 			sb.WriteString(" ")
 		}
 		sb.WriteString("]")
 	case map[string]interface{}:
-		encMap(sb, x)
+		encMap(sb, x, depth)
 	default:
 		if t, ok := numTok(v); ok {
 			sb.WriteString(t)
 			return
 		}
 		if m, ok := asMap(v); ok {
-			encMap(sb, m)
+			encMap(sb, m, depth)
 			return
 		}
 		sb.WriteString(fmt.Sprintf("?%T", v))
 	}
 }
 
-func encMap(sb *strings.Builder, x map[string]interface{}) {
+func encMap(sb *strings.Builder, x map[string]interface{}, depth int) {
 	ks := make([]string, 0, len(x))
 	for k := range x {
 		ks = append(ks, hx(k))
@@ -123,7 +118,7 @@ func encMap(sb *strings.Builder, x map[string]interface{}) {
 	for _, hk := range ks {
 		b, _ := hex.DecodeString(hk)
 		sb.WriteString("k" + hk + " ")
-		encTo(sb, x[string(b)])
+		encTo(sb, x[string(b)], depth+1)
 		sb.WriteString(" ")
 	}
 	sb.WriteString("}")
